@@ -94,6 +94,13 @@ Theorem C12_dir_fresh : ∀ (st : gset oid) load ix q sh e m ix',
 Proof. exact status_dir_fresh. Qed.
 Print Assumptions C12_dir_fresh.
 
+(* ---- the real loops iterate Python sets/dicts in an order the model does not know: for flat
+   listings status() through an index (result AND index update) does not depend on it *)
+Theorem C12_order_irrelevant : ∀ (st : gset oid) load ix q1 q2 sh,
+  wf_loader load → q1 ≡ₚ q2 → status_ix st load ix q1 sh = status_ix st load ix q2 sh.
+Proof. exact status_ix_perm. Qed.
+Print Assumptions C12_order_irrelevant.
+
 (* ---- histories.  Inv init, Inv s -> Inv (step s op), lifted by fold_left *)
 Theorem C12_inv_init : ∀ E remote, closed_in E remote → Inv E (init_state remote).
 Proof. exact Inv_init. Qed.
